@@ -143,6 +143,37 @@ pub fn draw_now() -> i64 {
 }
 
 // ------------------------------------------------------------------ configuration / tokinizer builders
+/// native builds start from the loader's configuration and empty its tables, so that a field added to the struct by
+/// a change under test does not break the harness build (the Kani build below has to name every field)
+#[cfg(not(kani))]
+pub fn blank_config() -> SmartCalcConfig {
+    let mut c = SmartCalcConfig::default();
+    c.json_data = JsonConstant::default();
+    c.format.clear();
+    c.currency.clear();
+    c.currency_alias.clear();
+    c.timezones.clear();
+    c.currency_rate.clear();
+    c.token_parse_regex.clear();
+    c.word_group.clear();
+    c.constant_pair.clear();
+    c.language_alias_regex.clear();
+    c.rule.clear();
+    c.types.clear();
+    c.type_conversion.clear();
+    c.month_regex.clear();
+    c.alias_regex.clear();
+    c.decimal_seperator = ",".to_string();
+    c.thousand_separator = ".".to_string();
+    c.timezone = "UTC".to_string();
+    c.timezone_offset = 0;
+    c.money_config = MoneyConfig { remove_fract_if_zero: false, use_fract_rounding: true };
+    c.number_config = NumberConfig { decimal_digits: 2, remove_fract_if_zero: true, use_fract_rounding: true };
+    c.percentage_config = NumberConfig { decimal_digits: 2, remove_fract_if_zero: true, use_fract_rounding: true };
+    c
+}
+
+#[cfg(kani)]
 pub fn blank_config() -> SmartCalcConfig {
     SmartCalcConfig {
         json_data: JsonConstant::default(),
